@@ -221,7 +221,31 @@ def _check_histories(tier, seed):
                       {"mesh": name, "accessed": [acc], "difference": tag})
         if len(h.samples) < 3:
             h.samples.append({"mesh": name, "n_node": int(len(desc[1])), "n_face": int(desc[3].shape[0])})
-    return h, len(descs), accs
+    # 7. grids given by Cartesian corners only (lon / lat derived on first access, whichever coordinate is read first): twins and
+    #    copies compare equal whatever was read, in whatever order, on either operand
+    import uxarray as ux
+    quads = [m for m in cat if all(sum(1 for v in row if v != FILL) == 4 for row in m["faces"]) and m["n_face"] <= 30]
+    quads = [m for m in quads if np.min(m["lon"]) < -20.0][: (6 if tier == "thorough" else 2)]
+    coord_orders = [("node_lat", "node_lon"), ("node_lon", "node_lat"), ("node_lat",), ("node_lon",), ("face_lon",), ("bounds", "node_lat")]
+    for m in quads:
+        lo, la = np.deg2rad(np.array(m["lon"], float)), np.deg2rad(np.array(m["lat"], float))
+        xyz = np.stack([np.cos(la) * np.cos(lo), np.cos(la) * np.sin(lo), np.sin(la)], axis=1)
+        verts = np.array([[xyz[v] for v in row[:4]] for row in m["faces"]])
+        mk = lambda: ux.Grid.from_face_vertices(verts.copy(), latlon=False)
+        for order in coord_orders:
+            inp = {"mesh": m["name"], "construction": "Grid.from_face_vertices(xyz, latlon=False)", "accessed": list(order)}
+            a, b = mk(), mk()
+            _touch(a, order)
+            h.compare(a, b, True, "cartesian_only:accessed_on_one_operand", order[0] + "_first", inp)
+            c = a.copy()
+            h.compare(a, c, True, "cartesian_only:copy_taken_after_access", order[0] + "_first", inp)
+            _touch(b, tuple(reversed(order)))
+            h.compare(a, b, True, "cartesian_only:different_access_sequences", order[0] + "_first", inp)
+            d = mk()
+            dc = d.copy()
+            _touch(d, order)
+            h.compare(d, dc, True, "cartesian_only:copy_taken_before_access", order[0] + "_first", inp)
+    return h, len(descs) + len(quads), accs
 
 
 def eq_matrix(tier, seed):
